@@ -46,7 +46,7 @@ def main(pid, tier, repo=None):
             ctx.anchor_missing(rid, fpath)
             continue
         if fpath not in cache:
-            cache[fpath] = validation.checks(f)
+            cache[fpath] = validation.checks_deep(ctx.prog, f)
             ctx.seen(f)
         cs = cache[fpath]
         have = [c for c in cs if validation.norm(c["subject"], c["op"], c["other"]) == cond]
